@@ -4,10 +4,12 @@ import OPM.Model.SaveConc
 namespace Driver.SaveConc
 open OPM OPM.Wire OPM.SaveConc
 
-/-- ops:  `init <v0> <locked 0/1> <reset 0/1> <precheck 0/1>` → fresh state at version v0 in the system variant the harness measured on
+/-- ops:  `init <v0> <locked 0/1> <reset 0/1> <precheck 0/1> <msgver 0/1>` → fresh state at version v0 in the system variant the harness measured on
                                      the real handler (lock across the round trip? version reset on re-registration? extra check in front of the lock?)
-          `initm <v0> <locked> <reset> <precheck>` → same with the lock bit flipped (mutant for the self-test)
+          `initm <v0> <locked> <reset> <precheck> <msgver>` → same with the lock bit flipped (mutant for the self-test)
           `disconnect` | `register` → the engine's connection drops / the engine registers again
+          `emethod <v> <content>`  → the engine sends the method it holds (version v)
+          `read`                   → a client reads the method: no effect
           `start <id> <base> <content>` → a save request enters (content: small number; equal = identical lines)
           `reply <id> <ok 0/1>`    → the engine's answer to the pending round trip of save <id> arrives
     answer: the canonical state, or `bad-op` (ill-formed line / event not enabled). -/
@@ -38,14 +40,24 @@ def render (s : State) : String :=
 
 def step (st : St) (line : String) : St × String :=
   match fields line with
-  | ["init", v, l, r, p] =>
-    match v.toNat?, parseBool l, parseBool r, parseBool p with
-    | some v, some l, some r, some p => let st' : St := ⟨⟨l, r, p⟩, OPM.SaveConc.init v⟩; (st', render st'.s)
-    | _, _, _, _ => (st, "bad-op")
-  | ["initm", v, l, r, p] =>
-    match v.toNat?, parseBool l, parseBool r, parseBool p with
-    | some v, some l, some r, some p => let st' : St := ⟨⟨!l, r, p⟩, OPM.SaveConc.init v⟩; (st', render st'.s)
-    | _, _, _, _ => (st, "bad-op")
+  | ["init", v, l, r, p, m] =>
+    match v.toNat?, parseBool l, parseBool r, parseBool p, parseBool m with
+    | some v, some l, some r, some p, some m =>
+      let st' : St := ⟨⟨l, r, p, m⟩, OPM.SaveConc.init v⟩; (st', render st'.s)
+    | _, _, _, _, _ => (st, "bad-op")
+  | ["initm", v, l, r, p, m] =>
+    match v.toNat?, parseBool l, parseBool r, parseBool p, parseBool m with
+    | some v, some l, some r, some p, some m =>
+      let st' : St := ⟨⟨!l, r, p, m⟩, OPM.SaveConc.init v⟩; (st', render st'.s)
+    | _, _, _, _, _ => (st, "bad-op")
+  | ["read"] => (st, render st.s)
+  | ["emethod", v, c] =>
+    match v.toNat?, c.toNat? with
+    | some v, some c =>
+      match OPM.SaveConc.step st.cfg st.s (.engineMethod v c) with
+      | some s' => ({ st with s := s' }, render s')
+      | none => (st, "bad-op")
+    | _, _ => (st, "bad-op")
   | ["disconnect"] =>
     match OPM.SaveConc.step st.cfg st.s .disconnect with
     | some s' => ({ st with s := s' }, render s')
